@@ -30,7 +30,7 @@ func (g *G) udp(maxData int) (*protocol.UDP, []byte) {
 	dl := g.payloadLen("udp_data", maxData)
 	data := g.Bytes("udp_data", dl)
 	u.Data = cp(data)
-	u.Length = uint16(8 + dl) // a caller maintains the datagram length (Appendix B.2)
+	u.Length = uint16(8 + dl + g.claimMore("udp", 1400)) // a caller maintains the datagram length (Appendix B.2)
 	w := make([]byte, 8, 8+dl)
 	binary.BigEndian.PutUint16(w, u.PortSrc)
 	binary.BigEndian.PutUint16(w[2:], u.PortDst)
@@ -158,7 +158,7 @@ func (g *G) IPv4Packet(maxData int) (*protocol.IPv4, []byte, string) {
 	data, dwire, proto, l4 := g.l4(false, maxData-20-4*nopt)
 	ip.Protocol = proto
 	ip.Data = data
-	ip.Length = uint16(20 + 4*nopt + len(dwire))
+	ip.Length = uint16(20 + 4*nopt + len(dwire) + g.claimMore("ipv4", 1400))
 	w := make([]byte, 20, 20+4*nopt+len(dwire))
 	w[0] = 4<<4 | ip.IHL
 	w[1] = ip.DSCP<<2 | ip.ECN
@@ -275,7 +275,7 @@ func (g *G) IPv6Packet(maxData int) (*protocol.IPv6, []byte, string) {
 			g.Label("ipv6_fragment")
 		}
 	}
-	ip.Length = uint16(len(ext) + len(dwire))
+	ip.Length = uint16(len(ext) + len(dwire) + g.claimMore("ipv6", 1400))
 	w := make([]byte, 40, 40+len(ext)+len(dwire))
 	w[0] = 6<<4 | ip.TrafficClass>>4
 	w[1] = ip.TrafficClass<<4 | uint8(ip.FlowLabel>>16)
